@@ -105,7 +105,8 @@ PROPS["C03"] = dict(
          "primary GC cycles+index GC, read again, close, reopen by rescan, read again. The same image bytes are loaded into the Lean model "
          "and its recovery is compared with the real one; every image captured while an explicit Flush ran must equal the crash image "
          "Sth/Model/CrashImage.lean predicts for that number of file events (creation or appended byte; early creation of the file "
-         "rolled over to included), and every image captured while a plain OpenStore ran must be the directory after one of the steps "
+         "rolled over to included), every image captured while Store.Close ran must be one of the Close images of Sth/Model/CrashImageClose.lean, "
+         "and every image captured while a plain OpenStore ran must be the directory after one of the steps "
          "Sth/Model/CrashImageOpen.lean lists - which ties the models the crash theorems quantify over to the code. Non-trivial = distinct workload with torn images / images at index, primary, "
          "freelist or store points.",
     assumptions=["process crash: what reached the files stays, in order; power-loss reordering is out of the property's scope",
